@@ -70,7 +70,7 @@ class Prop(BaseProp):
             # scale: a module of more than 64 KiB with text outside ASCII in its doccomments (where a block of bytes ends is
             # decided by the layout alone)
             b.mkdoc = lambda r, uid: [f"{{L{uid}.{k}}} Grüße – größer ✓ 日本語" for k in range(r.randint(1, 4))]
-            mod.items = mod.items + b.items(0, n=rng.randint(160, 260))
+            mod.items = b._fix_dangling(mod.items + b.items(0, n=rng.randint(160, 260)), 0)
             mod.big = True
         # free-form doccomment bodies (the project documents the leaderless style): leaderless lines with their own
         # relative indentation, leaders preceded by extra blanks, '#' without a following space, tabs after the leader
